@@ -397,4 +397,13 @@ theorem core_spec (hb : Bridge z deg small pos A wt k) :
 
 end spec
 
+/-- if no degree value counts as "small" (k = 0, s ≤ 0) the loop exits at its first test -/
+theorem peelLoop_no_small {α β : Type} {n : ℕ} (z : α) (deg : AMat α n → Fin n → β) (small pos : β → Bool)
+    (hs : ∀ x, small x = false) (fuel : ℕ) (M : AMat α n) (it : ℕ) (ord : List (List (Fin n)))
+    (lev : List (List ℕ)) :
+    peelLoop z deg small pos fuel M it ord lev = ⟨M, countPos deg pos M, ord, lev⟩ := by
+  cases fuel with
+  | zero => rfl
+  | succ f => simp [peelLoop, hs]
+
 end Bct.Core
